@@ -30,6 +30,12 @@ type B struct {
 type C struct {
 	ID int64 `graphql:"id,key"`
 }
+// P is a mutation payload: a type reachable only from the Mutation root, without a key.
+type P struct {
+	N int64
+	A *A
+}
+
 // D is held by value and is not comparable (it has a slice field).
 type D struct {
 	ID   int64 `graphql:"id,key"`
@@ -80,6 +86,9 @@ type world struct {
 
 	// fault plan (C16): failing (field, object id) instances
 	fail map[string]failure
+	// badU: ids of A objects whose "u" resolver hands back a union value with two
+	// members set (a data bug): an error in every execution mode
+	badU map[int64]bool
 	// modes by field name
 	modes   map[string]fieldMode
 	latency bool
@@ -88,7 +97,7 @@ type world struct {
 }
 
 type failure struct {
-	kind  int // 1 plain error, 2 safe error, 3 wrapped safe error, 4 panic
+	kind  int // 1 plain error, 2 safe error, 3 wrapped safe error, 4 panic; properties of the data, not injected: 5 nil for a non-null field, 6 union value with two members set
 	token string
 }
 
@@ -215,6 +224,14 @@ func (w *world) point(ctx context.Context, field string, id int64) error {
 	return nil
 }
 
+func (w *world) touchP(i int64) *P {
+	p := &P{N: 7000 + i}
+	if i >= 0 && int(i) < w.nA {
+		p.A = w.as[i]
+	}
+	return p
+}
+
 func (w *world) a(i int) *A {
 	if i < 0 {
 		return nil
@@ -313,7 +330,7 @@ func (w *world) register(obj *schemabuilder.Object, name string, plain interface
 	var opts []schemabuilder.FieldFuncOption
 	// scalar results are non-null in the plain form; the batch form needs the
 	// option to advertise (and enforce) the same type
-	if k := reflect.TypeOf(plain).Out(0).Kind(); k == reflect.String || k == reflect.Int64 {
+	if k := reflect.TypeOf(plain).Out(0).Kind(); k == reflect.String || k == reflect.Int64 || name == "nb" {
 		opts = append(opts, schemabuilder.NonNullable)
 	}
 	if m.parallel > 0 {
@@ -352,6 +369,10 @@ func (w *world) buildSchemaWithMutation() (*graphql.Schema, error) { return w.bu
 // build registers every logical field in the mode the run drew for it.
 func (w *world) build(withMutation bool) (*graphql.Schema, error) {
 	s := schemabuilder.NewSchema()
+	s.Object("P", P{})
+	s.Mutation().FieldFunc("touchP", func(ctx context.Context, args struct{ I int64 }) (*P, error) {
+		return w.touchP(args.I), nil
+	})
 	s.Mutation().FieldFunc("touchA", func(ctx context.Context, args struct{ I int64 }) (*A, error) {
 		if err := w.point(ctx, "Mutation.touchA", args.I); err != nil {
 			return nil, err
@@ -463,6 +484,14 @@ func (w *world) build(withMutation bool) (*graphql.Schema, error) {
 		}
 		return w.b(w.aB[a.ID-100]), nil
 	})
+	// nb is b declared non-null (B!): for an A without a b the resolver hands
+	// back a nil pointer, which every execution mode must turn into an error
+	w.register(oa, "nb", func(ctx context.Context, a *A) (*B, error) {
+		if err := w.point(ctx, "A.nb", a.ID); err != nil {
+			return nil, err
+		}
+		return w.b(w.aB[a.ID-100]), nil
+	})
 	w.register(oa, "bs", func(ctx context.Context, a *A) ([]*B, error) {
 		if err := w.point(ctx, "A.bs", a.ID); err != nil {
 			return nil, err
@@ -481,7 +510,15 @@ func (w *world) build(withMutation bool) (*graphql.Schema, error) {
 		if err := w.point(ctx, "A.u", a.ID); err != nil {
 			return nil, err
 		}
-		return w.u(w.aU[a.ID-100]), nil
+		u := w.u(w.aU[a.ID-100])
+		if u != nil && w.badU[a.ID] {
+			if u.A == nil {
+				u.A = w.as[0]
+			} else {
+				u.B = w.bs[0]
+			}
+		}
+		return u, nil
 	})
 
 	ob := s.Object("B", B{})
@@ -522,4 +559,4 @@ func (w *world) build(withMutation bool) (*graphql.Schema, error) {
 	return s.Build()
 }
 
-var computedFields = []string{"A.tag", "A.score", "A.b", "A.bs", "A.u", "B.a", "B.cs", "B.label", "C.w", "D.v"}
+var computedFields = []string{"A.tag", "A.score", "A.b", "A.bs", "A.u", "B.a", "B.cs", "B.label", "C.w", "D.v", "A.nb"}
